@@ -587,3 +587,646 @@ func genCls(rt *rapid.T) (string, []string) {
 	}
 	return sb.String(), c.tags
 }
+
+// ---------------------------------------------------------------------------------------------------
+// pat: destructuring patterns (object rest above all) whose computed keys, default values and targets
+// alias each other, in every binding / assignment position.
+
+type patGen struct {
+	*gen
+	decl   bool            // declaration (fresh names) or assignment (existing targets)
+	names  []string        // names bound / assigned by the pattern, for logging
+	bound  map[string]bool // declaration form: names already bound (a duplicate is an early error)
+	usesO  bool
+	hasRst bool
+}
+
+const patPrelude = `var k = "a", k2 = "b", cnt = 0, o = {}, sym = Symbol.for("s"), fns = [];
+var a, b, c, d, t1, t2, t3, r1, r2;
+function src(n) { log("src", n); return { a: 1, b: 2, c: { d: 3, e: 4, [sym]: 5 }, d: [6, 7], [sym]: 8, get e() { log("get e"); return 9; } }; }
+`
+
+func (g *patGen) keyName() string { return g.pick("key", "a", "b", "c", "d", "e") }
+
+// computed key expressions: constants, probes, variables that the same pattern may assign, assignments
+func (g *patGen) keyExpr() string {
+	switch g.n("keyexpr", 12) {
+	case 0:
+		g.tag("key:ident")
+		return "k"
+	case 1:
+		g.tag("key:ident")
+		return "k2"
+	case 2:
+		g.tag("key:probe")
+		return g.probe(`"` + g.keyName() + `"`)
+	case 3:
+		g.tag("key:string")
+		return `"` + g.keyName() + `"`
+	case 4:
+		g.tag("key:assign")
+		return `k = "` + g.keyName() + `"`
+	case 5:
+		g.tag("key:update")
+		return `cnt++ ? "a" : "b"`
+	case 6:
+		g.tag("key:template")
+		return "`${k}`"
+	case 7:
+		g.tag("key:symbol")
+		return "sym"
+	case 8:
+		g.tag("key:member")
+		g.usesO = true
+		return "o.key"
+	case 9:
+		g.tag("key:paren-ident")
+		return "(k)"
+	case 10:
+		g.tag("key:concat")
+		return `k + ""`
+	default:
+		g.tag("key:seq")
+		return `(log("key"), k2)`
+	}
+}
+
+func (g *patGen) defaultExpr() string {
+	switch g.n("default", 7) {
+	case 0:
+		return g.probe(`"dflt"`)
+	case 1:
+		g.tag("default:reads-key-var")
+		return "k"
+	case 2:
+		g.tag("default:assigns-key-var")
+		return `(k = "c", ` + g.probe("5") + `)`
+	case 3:
+		g.tag("default:assigns-key-var")
+		return `(k2 = "a")`
+	case 4:
+		if len(g.names) > 0 {
+			g.tag("default:reads-earlier-binding")
+			return g.names[g.n("earlier", len(g.names))]
+		}
+		return "0"
+	case 5:
+		return "cnt++"
+	default:
+		return g.probe("undefined")
+	}
+}
+
+// target of one property / element
+func (g *patGen) target(depth int) string {
+	if depth > 0 && g.chance("nested", 25) {
+		if g.chance("nestedarr", 30) {
+			return g.arrPat(depth - 1)
+		}
+		return g.objPat(depth-1, g.chance("nestedrest", 60))
+	}
+	if g.decl {
+		n := g.fresh("v")
+		if g.chance("declkeyvar", 12) {
+			if alias := g.pick("declalias", "k", "k2"); !g.bound[alias] {
+				n = alias
+				g.tag("target:key-var")
+			}
+		}
+		g.bound[n] = true
+		g.names = append(g.names, n)
+		return n
+	}
+	switch g.n("target", 8) {
+	case 0, 1:
+		n := g.pick("tvar", "t1", "t2", "t3")
+		g.names = append(g.names, n)
+		return n
+	case 2:
+		g.tag("target:key-var")
+		return g.pick("talias", "k", "k2")
+	case 3:
+		g.usesO = true
+		g.tag("target:member")
+		return "o." + g.pick("omember", "x", "y", "key")
+	case 4:
+		g.usesO = true
+		g.tag("target:computed-member")
+		return "o[" + g.probe(`"z"`) + "]"
+	case 5:
+		g.usesO = true
+		g.tag("target:member-of-key-var")
+		return "o[k]"
+	case 6:
+		g.tag("target:counter")
+		return "cnt"
+	default:
+		g.usesO = true
+		g.tag("target:probe-member")
+		return g.probe("o") + ".w"
+	}
+}
+
+func (g *patGen) restTarget() string {
+	if g.decl {
+		n := g.fresh("r")
+		g.names = append(g.names, n)
+		return n
+	}
+	switch g.n("resttarget", 6) {
+	case 0, 1, 2:
+		n := g.pick("rvar", "r1", "r2")
+		g.names = append(g.names, n)
+		return n
+	case 3:
+		g.tag("rest:key-var")
+		return "k"
+	case 4:
+		g.usesO = true
+		g.tag("rest:member")
+		return "o.rest"
+	default:
+		g.usesO = true
+		g.tag("rest:computed-member")
+		return "o[" + g.probe(`"rst"`) + "]"
+	}
+}
+
+func (g *patGen) objPat(depth int, rest bool) string {
+	var parts []string
+	n := g.n("nprops", 4)
+	for i := 0; i < n; i++ {
+		switch g.n("propform", 7) {
+		case 0:
+			// shorthand (assignment form assigns the pre-declared variable of that name)
+			key := g.pick("shorthand", "a", "b", "c", "d")
+			if g.decl && g.bound[key] {
+				parts = append(parts, key+": "+g.target(0))
+				continue
+			}
+			g.bound[key] = true
+			g.names = append(g.names, key)
+			if g.chance("shorthanddefault", 30) {
+				parts = append(parts, key+" = "+g.defaultExpr())
+			} else {
+				parts = append(parts, key)
+			}
+		case 1, 2:
+			s := g.keyName() + ": " + g.target(depth)
+			if g.chance("propdefault", 30) {
+				s += " = " + g.defaultExpr()
+			}
+			parts = append(parts, s)
+		default:
+			g.tag("pattern:computed-key")
+			s := "[" + g.keyExpr() + "]: " + g.target(depth)
+			if g.chance("propdefault", 30) {
+				s += " = " + g.defaultExpr()
+			}
+			parts = append(parts, s)
+		}
+	}
+	if rest {
+		g.hasRst = true
+		parts = append(parts, "..."+g.restTarget())
+	}
+	return "{ " + strings.Join(parts, ", ") + " }"
+}
+
+func (g *patGen) arrPat(depth int) string {
+	var parts []string
+	n := 1 + g.n("nelems", 3)
+	for i := 0; i < n; i++ {
+		if g.chance("hole", 10) {
+			parts = append(parts, "")
+			continue
+		}
+		s := g.target(depth)
+		if g.chance("elemdefault", 25) {
+			s += " = " + g.defaultExpr()
+		}
+		parts = append(parts, s)
+	}
+	if g.chance("arrrest", 30) {
+		parts = append(parts, "..."+g.target(depth))
+	}
+	return "[" + strings.Join(parts, ", ") + "]"
+}
+
+func (g *patGen) source() string {
+	switch g.n("source", 10) {
+	case 0:
+		g.tag("source:getter-mutates-key-var")
+		return `{ get a() { log("get a"); k = "b"; return 1; }, b: 2, c: 3 }`
+	case 1:
+		g.tag("source:getters")
+		return `{ get a() { log("get a"); return 1; }, get b() { log("get b"); return 2; }, c: { d: 1 }, d: [1] }`
+	case 2:
+		g.tag("source:inherited")
+		return `Object.create({ a: "inherited", b: "inh" }, { c: { value: 1, enumerable: true }, hidden: { value: 2, enumerable: false } })`
+	case 3:
+		g.tag("source:primitive")
+		return g.pick("prim", `"ab"`, "5", "true", "[1, 2, 3]")
+	case 4:
+		if g.chance("nullish", 30) {
+			g.tag("source:nullish")
+			return g.pick("nullish", "null", "undefined")
+		}
+		return "src(" + fmt.Sprint(g.n("srcid", 9)) + ")"
+	default:
+		return "src(" + fmt.Sprint(g.n("srcid", 9)) + ")"
+	}
+}
+
+var patPositions = []string{"var", "let", "const", "assign-stmt", "assign-expr", "for-of-decl", "for-of-assign", "for-in-decl", "param", "param-default", "arrow-param", "async-param", "generator-param", "method-param", "catch", "for-await-decl", "for-await-assign", "in-array-decl", "in-array-assign", "for-init", "async-arrow-param", "nested-default"}
+
+func genPat(rt *rapid.T) (string, []string) {
+	g := &patGen{gen: newGen(rt), bound: map[string]bool{}}
+	pos := patPositions[g.n("position", len(patPositions))]
+	g.tag("pos:" + pos)
+	switch pos {
+	case "assign-stmt", "assign-expr", "for-of-assign", "for-await-assign", "in-array-assign":
+		g.decl = false
+	default:
+		g.decl = true
+	}
+	rest := g.chance("rest", 85)
+	pat := g.objPat(1+g.n("depth", 2), rest)
+	if g.hasRst {
+		g.tag("pattern:object-rest")
+	}
+	src := g.source()
+	// what to log afterwards: every bound name plus the aliased variables
+	seen := map[string]bool{}
+	var logs []string
+	for _, n := range g.names {
+		if !seen[n] {
+			seen[n] = true
+			logs = append(logs, n)
+		}
+	}
+	local := strings.Join(logs, ", ")
+	if local == "" {
+		local = `"none"`
+	}
+	tail := "log(\"after\", k, k2, cnt, o);"
+	logLocal := "log(\"bound\", " + local + ");"
+	async := false
+	var body string
+	switch pos {
+	case "var", "let", "const":
+		body = pos + " " + pat + " = " + src + ";\n" + logLocal
+	case "assign-stmt":
+		body = "(" + pat + " = " + src + ");\n" + logLocal
+	case "assign-expr":
+		body = "var s0 = " + src + ";\nlog(\"same\", (" + pat + " = s0) === s0);\n" + logLocal
+	case "for-of-decl":
+		kw := g.pick("forkw", "var", "let", "const")
+		body = "for (" + kw + " " + pat + " of [" + src + ", " + g.source() + "]) { " + logLocal + " fns.push(() => [" + local + "]); }\nfor (var f of fns) log(\"closure\", f());"
+	case "for-of-assign":
+		body = "for (" + pat + " of [" + src + ", " + g.source() + "]) { " + logLocal + " }"
+	case "for-in-decl":
+		body = "for (var " + pat + " in { abc: 1, de: 2 }) { " + logLocal + " }"
+	case "param":
+		body = "function f(x, " + pat + ", ...more) { " + logLocal + " log(arguments.length, more); }\nf(1, " + src + ", 2);"
+	case "param-default":
+		body = "function f(" + pat + " = " + src + ") { " + logLocal + " }\nf(); f(" + g.source() + ");"
+	case "arrow-param":
+		body = "var f = (" + pat + ") => { " + logLocal + " };\nf(" + src + ");"
+	case "async-param":
+		async = true
+		body = "async function f(" + pat + ") { await null; " + logLocal + " }\nawait f(" + src + ");"
+	case "async-arrow-param":
+		async = true
+		body = "var f = async (" + pat + " = " + src + ") => { " + logLocal + " await null; return 1; };\nawait f();"
+	case "generator-param":
+		body = "function* f(" + pat + ") { yield 1; " + logLocal + " }\nvar it = f(" + src + "); log(it.next().done); log(it.next().done);"
+	case "method-param":
+		body = "class M { static m(" + pat + ") { " + logLocal + " } set s(" + pat + ") { " + logLocal + " } }\nM.m(" + src + "); new M().s = " + g.source() + ";"
+	case "catch":
+		body = "try { throw " + src + "; } catch (" + pat + ") { " + logLocal + " }"
+	case "for-await-decl":
+		async = true
+		kw := g.pick("forkw", "var", "let", "const")
+		body = "for await (" + kw + " " + pat + " of [" + src + ", Promise.resolve(" + g.source() + ")]) { " + logLocal + " }"
+	case "for-await-assign":
+		async = true
+		body = "for await (" + pat + " of [" + src + "]) { " + logLocal + " }"
+	case "in-array-decl":
+		body = "var [x0, " + pat + ", ...more] = [1, " + src + ", 2, 3];\n" + logLocal + " log(x0, more);"
+	case "in-array-assign":
+		body = "[t3, " + pat + ", ...o.more] = [1, " + src + ", 2, 3];\n" + logLocal
+		g.usesO = true
+	case "for-init":
+		body = "for (var " + pat + " = " + src + ", z = 0; z < 1; z++) { " + logLocal + " }"
+	case "nested-default":
+		body = "var { q: " + pat + " = " + src + " } = { };\n" + logLocal
+	}
+	var sb strings.Builder
+	if g.chance("strict", 30) {
+		sb.WriteString("\"use strict\";\n")
+		g.tag("mode:strict")
+	}
+	sb.WriteString(patPrelude)
+	inner := "try {\n" + body + "\n} catch (e) { log(\"threw\", e); }\n" + tail + "\n"
+	switch {
+	case async:
+		g.tag("wrap:async-main")
+		sb.WriteString("(async function main() {\n" + inner + "})().then(function () { log(\"done\"); }, function (e) { log(\"rejected\", e); });\n")
+	case g.chance("fnwrap", 30):
+		g.tag("wrap:function")
+		sb.WriteString("(function () {\n" + inner + "})();\n")
+	default:
+		g.tag("wrap:none")
+		sb.WriteString(inner)
+	}
+	return sb.String(), g.tags
+}
+
+// ---------------------------------------------------------------------------------------------------
+// loop: labelled, nested and stacked-label loops around awaits, for-await and yields, with break /
+// continue / return to inner and outer labels, iterators whose return() is observable, and closures
+// over the per-iteration bindings that are called after the loop.
+
+type loopGen struct {
+	*gen
+	labels  []string // enclosing labels that `continue` may target (loops)
+	blabels []string // enclosing labels that `break` may target (loops and blocks)
+	inGen   bool
+	depth   int
+	nloops  int
+}
+
+const loopPrelude = `var fns = [], o = {};
+function* sg(tag, n) { var i = 0; try { while (i < n) { log("sg next", tag, i); yield i++; } } finally { log("sg cleanup", tag); } }
+async function* ag(tag, n) { var i = 0; try { while (i < n) { log("ag next", tag, i); yield i++; } } finally { log("ag cleanup", tag); } }
+function si(tag, n) { var i = 0; return { [Symbol.iterator]() { return this; }, next() { log("si next", tag, i); return { value: i, done: i++ >= n }; }, return(v) { log("si return", tag); return { done: true, value: v }; } }; }
+function ai(tag, n) { var i = 0; return { [Symbol.asyncIterator]() { return this; }, next() { log("ai next", tag, i); return Promise.resolve({ value: i, done: i++ >= n }); }, return(v) { log("ai return", tag); return Promise.resolve({ done: true, value: v }); } }; }
+`
+
+func (g *loopGen) iterable(async bool) string {
+	tag := fmt.Sprint(g.n("itertag", 9))
+	n := fmt.Sprint(1 + g.n("iterlen", 3))
+	if async {
+		switch g.n("aiter", 7) {
+		case 0:
+			return "ag(" + tag + ", " + n + ")"
+		case 1:
+			return "ai(" + tag + ", " + n + ")"
+		case 2:
+			return "sg(" + tag + ", " + n + ")"
+		case 3:
+			return "si(" + tag + ", " + n + ")"
+		case 4:
+			return "[0, Promise.resolve(1), 2]"
+		case 5:
+			return "[" + g.probe("0") + ", " + g.probe("1") + "]"
+		default:
+			return g.probe("ag(" + tag + ", " + n + ")")
+		}
+	}
+	switch g.n("siter", 4) {
+	case 0:
+		return "sg(" + tag + ", " + n + ")"
+	case 1:
+		return "si(" + tag + ", " + n + ")"
+	case 2:
+		return "[0, 1, 2]"
+	default:
+		return g.probe("[0, 1]")
+	}
+}
+
+// head variable forms of for-of / for-await: returns the head text and the expression naming the value
+func (g *loopGen) head() (string, string) {
+	v := g.fresh("x")
+	switch g.n("head", 8) {
+	case 0, 1:
+		return "const " + v, v
+	case 2:
+		return "let " + v, v
+	case 3:
+		return "var " + v, v
+	case 4:
+		g.tag("head:member")
+		return "o." + v, "o." + v
+	case 5:
+		g.tag("head:assign")
+		return v, v // sloppy global / pre-declared below
+	case 6:
+		g.tag("head:array-pattern")
+		return "const [" + v + " = " + g.probe("-1") + "]", v
+	default:
+		g.tag("head:object-rest")
+		return "const { length: " + v + ", ...rst" + v + " }", v
+	}
+}
+
+func (g *loopGen) jump(val string) string {
+	// a conditional break / continue / return, to an inner or outer label
+	cond := g.pick("cond", val+" === 0", val+" === 1", val+" >= 1", "true", val+" !== 0")
+	kind := g.n("jump", 10)
+	switch {
+	case kind < 4 && len(g.labels) > 0:
+		l := g.labels[g.n("clabel", len(g.labels))]
+		if l != g.labels[len(g.labels)-1] {
+			g.tag("jump:continue-outer")
+		} else {
+			g.tag("jump:continue-label")
+		}
+		return "if (" + cond + ") { log(\"continue " + l + "\"); continue " + l + "; }"
+	case kind < 7 && len(g.blabels) > 0:
+		l := g.blabels[g.n("blabel", len(g.blabels))]
+		if l != g.blabels[len(g.blabels)-1] {
+			g.tag("jump:break-outer")
+		} else {
+			g.tag("jump:break-label")
+		}
+		return "if (" + cond + ") { log(\"break " + l + "\"); break " + l + "; }"
+	case kind == 7:
+		g.tag("jump:continue")
+		return "if (" + cond + ") continue;"
+	case kind == 8:
+		g.tag("jump:break")
+		return "if (" + cond + ") break;"
+	default:
+		g.tag("jump:return")
+		return "if (" + cond + ") return \"ret\" + " + val + ";"
+	}
+}
+
+func (g *loopGen) bodyStmts(val string, allowJump bool) string {
+	var sb strings.Builder
+	n := 1 + g.n("nbody", 4)
+	for i := 0; i < n; i++ {
+		switch g.n("stmt", 12) {
+		case 0, 1:
+			sb.WriteString("log(\"v\", " + val + "); ")
+		case 2:
+			g.tag("body:await")
+			sb.WriteString("log(\"aw\", await " + g.probe(val) + "); ")
+		case 3:
+			g.tag("body:closure")
+			sb.WriteString("fns.push(() => " + val + "); ")
+		case 4, 5:
+			if allowJump {
+				sb.WriteString(g.jump(val) + " ")
+			}
+		case 6:
+			if g.depth < 3 && g.nloops < 4 {
+				sb.WriteString(g.loop() + " ")
+			}
+		case 7:
+			if allowJump {
+				g.tag("body:try-finally")
+				sb.WriteString("try { " + g.jump(val) + " log(\"in try\"); } finally { log(\"finally\", " + val + "); } ")
+			}
+		case 8:
+			if g.inGen {
+				g.tag("body:yield")
+				sb.WriteString("log(\"sent\", yield " + val + "); ")
+			} else {
+				sb.WriteString("await null; ")
+			}
+		case 9:
+			if allowJump {
+				g.tag("body:switch")
+				sb.WriteString("switch (" + val + ") { case 0: log(\"case0\"); break; case 1: " + g.jump(val) + " default: log(\"dflt\"); } ")
+			}
+		case 10:
+			g.tag("body:await-in-expr")
+			sb.WriteString("log(\"sum\", " + g.probe(val) + " + await " + g.probe("10") + "); ")
+		default:
+			if allowJump && g.chance("trycatch", 50) {
+				g.tag("body:throw-in-loop")
+				sb.WriteString("try { if (" + val + " === 1) throw \"t\" + " + val + "; } catch (e) { log(\"caught\", e); " + g.jump(val) + " } ")
+			}
+		}
+	}
+	return sb.String()
+}
+
+func (g *loopGen) loop() string {
+	g.depth++
+	g.nloops++
+	defer func() { g.depth-- }()
+	// labels: none, one, or two stacked on the same loop
+	nl := 0
+	switch g.n("nlabels", 6) {
+	case 0, 1:
+		nl = 0
+	case 2, 3, 4:
+		nl = 1
+	default:
+		nl = 2
+		g.tag("label:stacked")
+	}
+	var mine []string
+	for i := 0; i < nl; i++ {
+		mine = append(mine, g.fresh("L"))
+	}
+	if nl > 0 {
+		g.tag("label:loop")
+	}
+	saveL, saveB := len(g.labels), len(g.blabels)
+	g.labels = append(g.labels, mine...)
+	g.blabels = append(g.blabels, mine...)
+	prefix := ""
+	for _, l := range mine {
+		prefix += l + ": "
+	}
+	var s string
+	kind := g.n("loopkind", 10)
+	switch kind {
+	case 0, 1, 2, 3:
+		g.tag("loop:for-await")
+		h, v := g.head()
+		s = prefix + "for await (" + h + " of " + g.iterable(true) + ") { " + g.bodyStmts(v, true) + "}"
+	case 4, 5:
+		g.tag("loop:for-of")
+		h, v := g.head()
+		s = prefix + "for (" + h + " of " + g.iterable(false) + ") { " + g.bodyStmts(v, true) + "}"
+	case 6:
+		g.tag("loop:for")
+		v := g.fresh("i")
+		s = prefix + "for (let " + v + " = 0; " + v + " < 3; " + v + "++) { " + g.bodyStmts(v, true) + "}"
+	case 7:
+		g.tag("loop:while")
+		v := g.fresh("w")
+		s = "var " + v + " = -1; " + prefix + "while (++" + v + " < 3) { " + g.bodyStmts(v, true) + "}"
+	case 8:
+		g.tag("loop:do-while")
+		v := g.fresh("w")
+		s = "var " + v + " = -1; " + prefix + "do { " + v + "++; " + g.bodyStmts(v, true) + "} while (" + v + " < 2);"
+	default:
+		g.tag("loop:for-in")
+		v := g.fresh("key")
+		s = prefix + "for (const " + v + " in { 0: 1, 1: 1, 2: 1 }) { " + g.bodyStmts("+"+v, true) + "}"
+	}
+	g.labels, g.blabels = g.labels[:saveL], g.blabels[:saveB]
+	if g.chance("blocklabel", 15) {
+		// a labelled block around the loop whose label only `break` may use
+		bl := g.fresh("K")
+		g.tag("label:block")
+		s = bl + ": { " + s + " log(\"end of " + bl + "\"); }"
+	}
+	return s
+}
+
+var loopFnKinds = []string{"async-function", "async-arrow", "async-generator", "async-method", "async-static-method", "async-object-method"}
+
+func genLoop(rt *rapid.T) (string, []string) {
+	g := &loopGen{gen: newGen(rt)}
+	kind := loopFnKinds[g.n("fnkind", len(loopFnKinds))]
+	g.tag("fn:" + kind)
+	g.inGen = kind == "async-generator"
+	var body strings.Builder
+	nl := 1 + g.n("ntoploops", 2)
+	for i := 0; i < nl; i++ {
+		body.WriteString("  " + g.loop() + "\n")
+	}
+	body.WriteString("  log(\"after loops\", who(this));\n  return \"end\";\n")
+	// assignment-form heads need declared variables (strict mode) — declare every fresh x name
+	var decls []string
+	for i := 1; i <= g.uid; i++ {
+		decls = append(decls, fmt.Sprintf("x%d", i))
+	}
+	var sb strings.Builder
+	if g.chance("strict", 35) {
+		sb.WriteString("\"use strict\";\n")
+		g.tag("mode:strict")
+	}
+	sb.WriteString(loopPrelude)
+	sb.WriteString("function who(v) { return v === undefined ? \"undef\" : v === globalThis ? \"global\" : v === o ? \"o\" : typeof v; }\n")
+	sb.WriteString("var " + strings.Join(decls, ", ") + ";\n")
+	call := ""
+	switch kind {
+	case "async-function":
+		sb.WriteString("async function f() {\n" + body.String() + "}\n")
+		call = "await f.call(o)"
+	case "async-arrow":
+		sb.WriteString("var f = async () => {\n" + strings.Replace(body.String(), "who(this)", "typeof this", 1) + "};\n")
+		call = "await f()"
+	case "async-generator":
+		sb.WriteString("async function* f() {\n" + body.String() + "}\n")
+		call = ""
+	case "async-method":
+		sb.WriteString("class M { async f() {\n" + body.String() + "} }\n")
+		call = "await new M().f()"
+	case "async-static-method":
+		sb.WriteString("class M { static async f() {\n" + body.String() + "} }\n")
+		call = "await M.f()"
+	default:
+		sb.WriteString("o.f = async function () {\n" + body.String() + "};\n")
+		call = "await o.f()"
+	}
+	sb.WriteString("(async function main() {\n")
+	if kind == "async-generator" {
+		sb.WriteString("  var it = f.call(o), r, sent = 0;\n  try { while (!(r = await it.next(sent++)).done) { log(\"yielded\", r.value); if (sent > 12) { log(\"closing\", await it.return(\"closed\")); break; } } log(\"result\", r.value); } catch (e) { log(\"threw\", e); }\n")
+	} else {
+		sb.WriteString("  try { log(\"result\", " + call + "); } catch (e) { log(\"threw\", e); }\n")
+	}
+	sb.WriteString("  for (var fn of fns) { try { log(\"closure\", fn()); } catch (e) { log(\"closure threw\", e); } }\n  log(\"o\", o);\n")
+	sb.WriteString("})().then(function () { log(\"done\"); }, function (e) { log(\"rejected\", e); });\n")
+	return sb.String(), g.tags
+}
